@@ -682,7 +682,7 @@ func (n cnode) width() int {
 	ast.Inspect(n.n, func(m ast.Node) bool {
 		if x, ok := m.(*ast.SelectorExpr); ok {
 			for _, k := range []int{16, 32, 64} {
-				if x.Sel.Name == fmt.Sprintf("Uint%d", k) || x.Sel.Name == fmt.Sprintf("PutUint%d", k) {
+				if x.Sel.Name == fmt.Sprintf("Uint%d", k) || x.Sel.Name == fmt.Sprintf("PutUint%d", k) || x.Sel.Name == fmt.Sprintf("AppendUint%d", k) {
 					if w != 0 && w != k {
 						n.p.c.failf("%s: %s: several accessor widths", n.p.c.rel(n.n.Pos()), n.where)
 					}
@@ -917,15 +917,19 @@ func (c *cx) texts(name string, at cnode, ss []string) {
 }
 
 // putOrder: the second arguments of the `binary.<order>.PutUintN(buf, x)` calls of a function in source order,
-// as "<N><l|b>:<x>" (width, byte order, what is written)
+// (and of the AppendUintN calls) as "<N><l|b>:<x>[@<dst slice>]" (width, byte order, what is written, where)
 func (c *cx) putOrder(name string, n cnode) {
 	var out []string
-	for _, k := range n.callsWith(func(s string) bool { return strings.HasPrefix(s, "binary.") && strings.Contains(s, ".PutUint") }) {
+	for _, k := range n.callsWith(func(s string) bool { return strings.HasPrefix(s, "binary.") && (strings.Contains(s, ".PutUint") || strings.Contains(s, ".AppendUint")) }) {
 		e := "b"
 		if k.little() {
 			e = "l"
 		}
-		out = append(out, fmt.Sprintf("%d%s:%s", k.width(), e, k.arg(1).text()))
+		dst := ""
+		if _, ok := k.arg(0).n.(*ast.SliceExpr); ok {
+			dst = "@" + k.arg(0).text() // written in place at a fixed position
+		}
+		out = append(out, fmt.Sprintf("%d%s:%s%s", k.width(), e, k.arg(1).text(), dst))
 	}
 	if len(out) == 0 {
 		c.failf("package %s: %s: no binary.*.PutUintN calls", n.p.dir, n.where)
